@@ -765,21 +765,5 @@ theorem detect_up_to_three (p e : Bytes) (hp : p.length = 1024) (he : e.length =
 
 /-! ### axioms -/
 
-#print axioms crcTable_getElem
-#print axioms crcStep_eq_ref
-#print axioms crc32c_eq_ref
-#print axioms crcRaw_xor
-#print axioms crc_xor_affine
-#print axioms crc_xor_three
-#print axioms alteration_undetected_iff
-#print axioms crcRaw_zeros
-#print axioms detect_checksum_only
-#print axioms detect_odd
-#print axioms detect_single_bit
-#print axioms crcShift_inj
-#print axioms crcOrder_gt_8191
-#print axioms detect_two
-#print axioms detect_two_pop
-#print axioms detect_up_to_three
 
 end E57
